@@ -36,9 +36,18 @@ Definition hexd (n : Z) : ascii := ascii_of_N (Z.to_N (if n <? 10 then n + 48 el
 Fixpoint hex (b : bytes) : string :=
   match b with [] => EmptyString | x :: t => String (hexd (x / 16)) (String (hexd (x mod 16)) (hex t)) end.
 Definition mk_pk (valid : list Z) : bytes -> bool := fun b => existsb (Z.eqb (be_val 0 b)) valid.
-Definition run (c : list Z * string) : string * Z * string :=
-  let '(valid, h) := c in
-  let b := unhex h in
+Fixpoint beqb (a b : bytes) : bool :=
+  match a, b with [], [] => true | x :: a', y :: b' => (x =? y) && beqb a' b' | _, _ => false end.
+(* a case: (base index or -1, cut, pos or -1, val, suffix hex, extra valid keys); the frame is
+   (first [cut] bytes of the base, byte [pos] replaced by [val]) ++ suffix *)
+Definition mkframe (bases : list (list Z * bytes)) (c : Z * Z * Z * Z * string * list Z) : list Z * bytes :=
+  let '(k, cut, pos, val, suf, extra) := c in
+  let '(bvalid, b) := if k <? 0 then ([], []) else nth (Z.to_nat k) bases ([], []) in
+  let b1 := ztake cut b in
+  let b2 := if pos <? 0 then b1 else ztake pos b1 ++ (match zdrop pos b1 with [] => [] | _ :: t => val :: t end) in
+  (bvalid ++ extra, b2 ++ unhex suf).
+Definition run (c : list Z * bytes) : string * Z * string :=
+  let '(valid, b) := c in
   let pk := mk_pk valid in
   match read_u 2 b with
   | RErr e => (String.append "Err " e, 0, EmptyString)
@@ -48,7 +57,9 @@ Definition run (c : list Z * string) : string * Z * string :=
     | Some s =>
       match msg_dec pk s r with
       | RErr e => (String.append "Err " e, 0, EmptyString)
-      | ROk (m, rest) => ("Ok"%string, len rest, hex (msg_enc s m))
+      | ROk (m, rest) =>
+        let e := msg_enc s m in
+        ("Ok"%string, len rest, if beqb e (ztake (len r - len rest) r) then "="%string else hex e)
       end
     end
   end.
@@ -148,8 +159,9 @@ def gen_field(rng, c, keys):
     raise ValueError(k)
 
 
-def gen_frame(rng, s, keys, subset=None):
-    """One canonical frame of schema s (write side). subset: bitmask of TLVs to include (None = random)."""
+def gen_frame(rng, s, keys, subset=None, overlong=False):
+    """One canonical frame of schema s (write side). subset: bitmask of TLVs to include (None = random).
+    overlong: the last present TLV whose codec has a fixed size declares (and carries) one byte more."""
     side = s["write"]
     out = s["type"].to_bytes(2, "big")
     for _, c in side["fixed"]:
@@ -167,6 +179,11 @@ def gen_frame(rng, s, keys, subset=None):
             v = gen_field(rng, pc, keys)
             if k == "KOptVec" and len(v) == 0:
                 continue
+            fixed_size = pc[0] == "FSeq" or (pc[0] == "FB" and pc[1][0] in ("BU", "BBool", "BAcct", "BBytes", "BPk", "BSig"))
+            last_inc = subset is not None and (subset >> (i + 1)) == 0
+            if overlong and fixed_size and last_inc:
+                v += b"\x00"
+                info["overlong"] = True
             out += bigsize(t) + bigsize(len(v)) + v
             info["present"].append(t)
     elif kind == "TRest":
@@ -183,34 +200,57 @@ def sample_positions(rng, n, dense=120, extra=40):
     return sorted(pos)
 
 
+class Cases(list):
+    """Frames in a compact form shared with the model: a frame is (first `cut` bytes of base `k`, byte
+    `pos` replaced by `val`) + suffix."""
+
+    def __init__(self):
+        super().__init__()
+        self.bases = []
+
+    def base(self, fr):
+        self.bases.append(fr)
+        return len(self.bases) - 1
+
+    def add(self, kind, name, k=-1, cut=None, pos=-1, val=0, suffix=b"", **kw):
+        b = self.bases[k] if k >= 0 else b""
+        cut = len(b) if cut is None else cut
+        b1 = b[:cut]
+        if pos >= 0 and pos < len(b1):
+            b1 = b1[:pos] + bytes([val]) + b1[pos + 1:]
+        d = {"frame": b1 + suffix, "kind": kind, "name": name, "rep": (k, cut, pos, val, suffix)}
+        d.update(kw)
+        self.append(d)
+
+
 def build_cases(ctx, meta, keys, gen_frames):
-    """Returns list of dicts {frame: bytes, kind, expect?}"""
+    """Returns Cases (list of dicts {frame, kind, name, rep, expectations...})"""
     rng = ctx.rng.fork("cases")
     quick = ctx.tier == "quick"
-    cases = []
-    per_schema_valid = 10 if quick else 60
-    mut_samples = 2 if quick else 8
+    cases = Cases()
+    per_schema_valid = 4 if quick else 40
+    mut_samples = 1 if quick else 6
+    n_trunc, n_mut = (40, 60) if quick else (150, 300)
     for s in meta["schemas"]:
         side = s["write"]
         ntlv = len(side["tail"][1]) if side["tail"][0] == "TTlv" else 0
         valid = []
-        for sub in range(1 << min(ntlv, 5)):
+        for sub in range(1 << min(ntlv, 4 if quick else 5)):
             valid.append(gen_frame(rng, s, keys, subset=sub))
         for _ in range(per_schema_valid):
             valid.append(gen_frame(rng, s, keys))
-        for fr, info in valid:
-            cases.append({"frame": fr, "kind": "valid", "name": s["name"], "expect_payload": fr[2:]})
-        is_onion = any("BOnion" in c for _, c in side["fixed"])
-        for fr, info in valid[:mut_samples] + valid[-1:]:
+        for fr, info in valid[:-mut_samples]:
+            cases.add("valid", s["name"], suffix=fr, expect_payload=fr[2:])
+        for fr, info in valid[-mut_samples:]:
             n = len(fr)
-            dense = 60 if is_onion else 120
-            for cut in sample_positions(rng, n, dense, 20):
-                cases.append({"frame": fr[:cut], "kind": "trunc", "name": s["name"]})
-            for pos in sample_positions(rng, n, dense, 30):
-                for val in {fr[pos] ^ 0x01, fr[pos] ^ 0x80, 0x00, 0xFF, rng.below(256)} - {fr[pos]}:
-                    if quick and val not in (fr[pos] ^ 0x01, 0xFF, 0x00) and not rng.chance(1, 3):
-                        continue
-                    cases.append({"frame": fr[:pos] + bytes([val]) + fr[pos + 1:], "kind": "mut", "name": s["name"]})
+            k = cases.base(fr)
+            cases.add("valid", s["name"], k=k, expect_payload=fr[2:])
+            for cut in sample_positions(rng, n, n_trunc // 4, n_trunc // 2):
+                cases.add("trunc", s["name"], k=k, cut=cut)
+            for pos in sample_positions(rng, n, n_mut // 4, n_mut // 2):
+                vals = [fr[pos] ^ 0x01, rng.choice([0x00, 0xFF, fr[pos] ^ 0x80, rng.below(256)])]
+                for val in sorted(set(vals) - {fr[pos]}):
+                    cases.add("mut", s["name"], k=k, pos=pos, val=val)
             # extensions
             big_odd = rng.choice([0xFFFFFFFF, 0x100000001, 2 ** 64 - 1, 0x1FFFF, 251, 253])
             big_odd |= 1
@@ -220,44 +260,89 @@ def build_cases(ctx, meta, keys, gen_frames):
                 if big_odd > last_t:
                     known = [t for (t, _, _, _) in side["tail"][1]]
                     if big_odd not in known:
-                        cases.append({"frame": fr + bigsize(big_odd) + bigsize(len(junk)) + junk, "kind": "ext_odd", "name": s["name"], "expect_payload": fr[2:]})
+                        cases.add("ext_odd", s["name"], k=k, suffix=bigsize(big_odd) + bigsize(len(junk)) + junk, expect_payload=fr[2:])
                 even = big_odd + 1 if big_odd < 2 ** 64 - 1 else 2 ** 64 - 2
                 if even > last_t and even not in [t for (t, _, _, _) in side["tail"][1]]:
-                    cases.append({"frame": fr + bigsize(even) + bigsize(len(junk)) + junk, "kind": "ext_even", "name": s["name"], "expect_err": "UnknownRequiredFeature"})
+                    cases.add("ext_even", s["name"], k=k, suffix=bigsize(even) + bigsize(len(junk)) + junk, expect_err="UnknownRequiredFeature")
                 # non-minimal BigSize type / length
-                cases.append({"frame": fr + b"\xfd\x00\xf1" + b"\x00", "kind": "ext_nonminimal", "name": s["name"], "expect_err": "InvalidValue"})
-                cases.append({"frame": fr + bigsize(big_odd if big_odd > last_t else last_t + 2 | 1) + b"\xfe\x00\x00\x00\x05" + b"\x00" * 5, "kind": "ext_nonminimal_len", "name": s["name"], "expect_err": "InvalidValue"})
+                for nm in (b"\xfd\x00\xf1", b"\xfd\x00\xfc", b"\xfe\x00\x00\xff\xff", b"\xff\x00\x00\x00\x00\xff\xff\xff\xff"):
+                    cases.add("ext_nonminimal", s["name"], k=k, suffix=nm + b"\x00", expect_err="InvalidValue")
+                cases.add("ext_nonminimal_len", s["name"], k=k, suffix=bigsize(big_odd if big_odd > last_t else last_t + 2 | 1) + b"\xfe\x00\x00\x00\x05" + b"\x00" * 5, expect_err="InvalidValue")
                 # duplicate / out-of-order: repeat the last present record's type
                 if info["present"]:
-                    cases.append({"frame": fr + bigsize(last_t) + b"\x00", "kind": "ext_dup", "name": s["name"], "expect_err": "InvalidValue"})
+                    cases.add("ext_dup", s["name"], k=k, suffix=bigsize(last_t) + b"\x00", expect_err="InvalidValue")
                 # declared length longer than what is left
-                cases.append({"frame": fr + bigsize(big_odd if big_odd > last_t else 2 ** 64 - 1) + bigsize(len(junk) + 1) + junk, "kind": "ext_short", "name": s["name"], "expect_err": "ShortRead"})
+                cases.add("ext_short", s["name"], k=k, suffix=bigsize(big_odd if big_odd > last_t else 2 ** 64 - 1) + bigsize(len(junk) + 1) + junk, expect_err="ShortRead")
             for _ in range(2):
-                cases.append({"frame": fr + rbytes(rng, 1 + rng.below(8)), "kind": "ext_rand", "name": s["name"]})
+                cases.add("ext_rand", s["name"], k=k, suffix=rbytes(rng, 1 + rng.below(8)))
+        # a known fixed-size TLV carrying one byte too many must be rejected
+        for sub in range(1, 1 << min(ntlv, 4)):
+            fr, info = gen_frame(rng, s, keys, subset=sub, overlong=True)
+            if info.get("overlong"):
+                cases.add("tlv_overlong", s["name"], suffix=fr, expect_err="InvalidValue")
         # random payloads for this type
         for _ in range(3 if quick else 30):
-            cases.append({"frame": s["type"].to_bytes(2, "big") + rbytes(rng, rng.below(120)), "kind": "random", "name": s["name"]})
+            cases.add("random", s["name"], suffix=s["type"].to_bytes(2, "big") + rbytes(rng, rng.below(120)))
     # frames of values built by the Rust generator (irregular codecs): valid + truncations + mutations
-    for name, fr, ok in gen_frames:
-        cases.append({"frame": fr, "kind": "gen", "name": name, "rt": ok, "expect_payload": fr[2:] if name != "Init" else None})
-    for name, fr, ok in gen_frames[: (44 if quick else 400)]:
+    nmut = 22 if quick else 400
+    for gi, (name, fr, ok) in enumerate(gen_frames):
+        if gi >= nmut:
+            cases.add("gen", name, suffix=fr, rt=ok, expect_payload=fr[2:] if name != "Init" else None)
+            continue
         n = len(fr)
-        for cut in sample_positions(rng, n, 60, 10):
-            cases.append({"frame": fr[:cut], "kind": "trunc", "name": name})
-        for pos in sample_positions(rng, n, 60, 10):
-            for val in {fr[pos] ^ 0x01, 0xFF, rng.below(256)} - {fr[pos]}:
-                cases.append({"frame": fr[:pos] + bytes([val]) + fr[pos + 1:], "kind": "mut", "name": name})
-        cases.append({"frame": fr + rbytes(rng, 1 + rng.below(6)), "kind": "ext_rand", "name": name})
+        k = cases.base(fr)
+        cases.add("gen", name, k=k, rt=ok, expect_payload=fr[2:] if name != "Init" else None)
+        for cut in sample_positions(rng, n, 15, 10):
+            cases.add("trunc", name, k=k, cut=cut)
+        for pos in sample_positions(rng, n, 40, 20):
+            for val in sorted({fr[pos] ^ 0x01, rng.below(256)} - {fr[pos]}):
+                cases.add("mut", name, k=k, pos=pos, val=val)
+        cases.add("ext_rand", name, k=k, suffix=rbytes(rng, 1 + rng.below(6)))
+    # crafted malformed frames for the irregular hand-written codecs (boundaries of their length logic)
+    ch = rbytes(rng, 32)
+    crafted = [
+        ("QueryShortChannelIds", (261).to_bytes(2, "big") + ch + b"\x00\x00\x00", "InvalidValue"),          # encoding_len = 0
+        ("QueryShortChannelIds", (261).to_bytes(2, "big") + ch + b"\x00\x02\x00\x01", "InvalidValue"),      # (len-1) % 8 != 0
+        ("QueryShortChannelIds", (261).to_bytes(2, "big") + ch + b"\x00\x01\x01", "UnsupportedCompression"),
+        ("QueryShortChannelIds", (261).to_bytes(2, "big") + ch + b"\x00\x09\x00" + b"\x01" * 7, "ShortRead"),
+        ("QueryShortChannelIds", (261).to_bytes(2, "big") + ch + b"\x00", "ShortRead"),
+        ("ReplyChannelRange", (264).to_bytes(2, "big") + ch + b"\x00" * 8 + b"\x01" + b"\x00\x00\x00", "InvalidValue"),
+        ("ReplyChannelRange", (264).to_bytes(2, "big") + ch + b"\x00" * 8 + b"\x02" + b"\x00\x01\x00", "InvalidValue"),  # bool = 2
+        ("ReplyChannelRange", (264).to_bytes(2, "big") + ch + b"\x00" * 8 + b"\x01" + b"\xff\xff\x00", "InvalidValue"),
+        ("Ping", (18).to_bytes(2, "big") + b"\x00\x01\x00\x05\x00\x00", "ShortRead"),
+        ("Ping", (18).to_bytes(2, "big") + b"\x00\x01\xff\xff" + b"\x00" * 100, "ShortRead"),
+        ("Pong", (19).to_bytes(2, "big") + b"\x00\x03\x00\x00", "ShortRead"),
+        ("ChannelUpdate", (258).to_bytes(2, "big") + b"\x01" * 64 + ch + b"\x00" * 8 + b"\x00" * 4 + b"\x00" + b"\x00" * 27, "InvalidValue"),  # must_be_one clear
+        ("ErrorMessage", (17).to_bytes(2, "big") + ch + b"\x00\x02\xc3\x28", "InvalidValue"),   # invalid UTF-8
+        ("ErrorMessage", (17).to_bytes(2, "big") + ch + b"\x00\x03\xed\xa0\x80", "InvalidValue"),  # surrogate
+        ("ErrorMessage", (17).to_bytes(2, "big") + ch + b"\x00\x02\xc0\x80", "InvalidValue"),   # overlong NUL
+        ("ErrorMessage", (17).to_bytes(2, "big") + ch + b"\x00\x04\xf4\x90\x80\x80", "InvalidValue"),  # > U+10FFFF
+        ("ErrorMessage", (17).to_bytes(2, "big") + ch + b"\x00\x04\xf4\x8f\xbf\xbf", None),
+        ("Stfu", (2).to_bytes(2, "big") + ch + b"\x02", "InvalidValue"),                          # bool = 2
+        ("FundingSigned", (35).to_bytes(2, "big") + ch + b"\xff" * 64, "InvalidValue"),          # r, s >= group order
+        ("FundingSigned", (35).to_bytes(2, "big") + ch + SECP_N.to_bytes(32, "big") + b"\x00" * 31 + b"\x01", "InvalidValue"),
+        ("FundingSigned", (35).to_bytes(2, "big") + ch + (SECP_N - 1).to_bytes(32, "big") + (SECP_N - 1).to_bytes(32, "big"), None),
+        ("FundingSigned", (35).to_bytes(2, "big") + ch + b"\x00" * 64, None),
+        ("TxAbort", (74).to_bytes(2, "big") + ch + b"\xff\xff" + b"\x00" * 8 + b"\x01" * 30, "ShortRead"),      # CollectionLength escape
+        ("TxAbort", (74).to_bytes(2, "big") + ch + b"\xff\xff" + b"\xff" * 8, "InvalidValue"),                   # overflowing escape
+        ("CommitmentSigned", (132).to_bytes(2, "big") + ch + b"\x00" * 64 + b"\x00\x02" + b"\x00" * 64, "ShortRead"),
+    ]
+    for name, fr, exp in crafted:
+        if exp is None:
+            cases.add("crafted_ok", name, suffix=fr)
+        else:
+            cases.add("crafted", name, suffix=fr, expect_err=exp)
     # unknown / unassigned message types and tiny frames
     known_types = set(meta["types"].values())
     for t in [0, 3, 4, 5, 6, 8, 10, 20, 31, 37, 40, 41, 42, 100, 129, 137, 255, 260, 266, 512, 514, 1000, 32768, 32769, 65534, 65535]:
         if t not in known_types:
-            cases.append({"frame": t.to_bytes(2, "big") + rbytes(rng, rng.below(20)), "kind": "unknown_type", "name": "?", "expect_unknown": t})
+            cases.add("unknown_type", "?", suffix=t.to_bytes(2, "big") + rbytes(rng, rng.below(20)), expect_unknown=t)
     for fr in [b"", b"\x00", b"\x01", b"\xff"]:
-        cases.append({"frame": fr, "kind": "tiny", "name": "?", "expect_err": "ShortRead"})
+        cases.add("tiny", "?", suffix=fr, expect_err="ShortRead")
     # dedupe by frame keeping the first (expectations are attached to first occurrences)
     seen = set()
-    out = []
+    out = Cases()
+    out.bases = cases.bases
     for c in cases:
         if c["frame"] in seen and c["kind"] in ("trunc", "mut", "random", "ext_rand"):
             continue
@@ -313,27 +398,37 @@ def run_model(ctx, cases, impl, meta):
         fr = c["frame"]
         if len(fr) < 2 or int.from_bytes(fr[:2], "big") in schema_types or int.from_bytes(fr[:2], "big") not in set(meta["types"].values()):
             todo.append(i)
+    # valid public keys of every base frame (asked from the implementation run of the unmodified base)
+    base_valid = [set() for _ in cases.bases]
+    for i, c in enumerate(cases):
+        k, cut, pos, val, suffix = c["rep"]
+        if k >= 0 and cut == len(cases.bases[k]) and pos < 0 and not suffix:
+            base_valid[k] = set(int.from_bytes(c["frame"][off:off + 33], "big") for off in impl[i].get("valid", []))
+    bases_def = "Definition bases : list (list Z * bytes) := [" + "; ".join(
+        '([%s], unhex "%s")' % ("; ".join(str(v) for v in sorted(bv)), b.hex()) for bv, b in zip(base_valid, cases.bases)) + "]."
     exprs = []
-    B = 150
+    B = 400
     chunks = [todo[i:i + B] for i in range(0, len(todo), B)]
     for ch in chunks:
         items = []
         for i in ch:
-            fr = cases[i]["frame"]
-            valid = []
-            for off in impl[i].get("valid", []):
-                valid.append(int.from_bytes(fr[off:off + 33], "big"))
-            items.append('([%s], "%s"%%string)' % ("; ".join(str(v) for v in sorted(set(valid))), fr.hex()))
-        exprs.append("map run [" + "; ".join(items) + "]")
-    vals = ctx.coq_eval("corr_wire", COQ_IMPORTS, exprs, prelude=PRELUDE, shards=min(core.NPROC, max(1, len(exprs))), timeout=1500)
+            c = cases[i]
+            fr = c["frame"]
+            k, cut, pos, val, suffix = c["rep"]
+            valid = set(int.from_bytes(fr[off:off + 33], "big") for off in impl[i].get("valid", []))
+            extra = valid - (base_valid[k] if k >= 0 else set())
+            items.append('(%d, %d, %d, %d, "%s"%%string, [%s])' % (k, cut, pos, val, suffix.hex(), "; ".join(str(v) for v in sorted(extra))))
+        exprs.append("map (fun c => run (mkframe bases c)) [" + "; ".join(items) + "]")
+    vals = ctx.coq_eval("corr_wire", COQ_IMPORTS, exprs, prelude=PRELUDE + bases_def + "\n", shards=min(core.NPROC, max(1, len(exprs))), timeout=1500)
     out = {}
-    rx = re.compile(r'\("((?:[^"]|"")*)",\s*(-?\d+),\s*"([0-9a-f]*)"\)')
+    rx = re.compile(r'\("((?:[^"]|"")*)"(?:%string)?,\s*(-?\d+),\s*"([0-9a-f=]*)"(?:%string)?\)')
     for ch, v in zip(chunks, vals):
         found = rx.findall(v)
         if len(found) != len(ch):
             raise RuntimeError("model output parse: %d results for %d cases: %s" % (len(found), len(ch), v[:300]))
         for i, (st, n, pl) in zip(ch, found):
-            out[i] = (st, int(n), bytes.fromhex(pl))
+            fr = cases[i]["frame"]
+            out[i] = (st, int(n), (fr[2:len(fr) - int(n)] if pl == "=" else bytes.fromhex(pl)))
     return out
 
 
@@ -457,7 +552,7 @@ def run(ctx):
     # ---- implementation side
     rc, klines = ctx.run_bin("h_wire", "", args=["keys", "24", str(ctx.seed)])
     keys = [bytes.fromhex(l.strip()) for l in klines if len(l.strip()) == 66]
-    ngen = 220 if ctx.tier == "quick" else 4400
+    ngen = 110 if ctx.tier == "quick" else 4400
     rc2, glines = ctx.run_bin("h_wire", "", args=["gen", str(ngen), str(ctx.seed)])
     gen_frames = []
     gen_panics = []
